@@ -1,0 +1,5 @@
+//go:build !verif
+
+package vaxis
+
+func verifC03(vx *Vaxis, point string) {}
